@@ -552,6 +552,56 @@ fn body_panic_str_bad_index<const CORE: bool>() {
     mem::forget(s);
 }
 
+/// split_off / drain with a range whose start or end is out of bounds, reversed, or NOT on a char boundary - including
+/// EMPTY ranges inside a multi-byte character - must panic on every path (documented: "Panics if the starting point or
+/// end point do not lie on a char boundary, or if they're out of bounds"; std's `drain` / `split_off` do). The checks
+/// placed after the calls are unreachable when the method panics; they fail (and replay natively) when it returns.
+/// (named `mustfail_*`: the expected-failure pattern of the must-panic harnesses matches function names with "panic")
+fn body_str_range_must_reject<const CORE: bool>() {
+    let st = any_text::<CORE>();
+    let mut buf: SBuf = [const { MaybeUninit::uninit() }; SCAP];
+    let mut s = unsafe { fixed_string(&mut buf, &st) };
+    let a: usize = kani::any();
+    let b: usize = kani::any();
+    kani::assume(a > b || b > st.len || !is_boundary(&st, a) || !is_boundary(&st, b));
+    let op: u8 = kani::any();
+    kani::assume(op < 3);
+    kani::cover!(a == b && a < st.len, "REACH: empty range inside a multi-byte char");
+    kani::cover!(a < b && b <= st.len && is_boundary(&st, a), "REACH: only the end is inside a char");
+    kani::cover!(b > st.len, "REACH: end beyond the length");
+    match op {
+        0 => {
+            let off = s.split_off(a..b);
+            mem::forget(off);
+            kani::cover!(true, "C09: FixedBumpString::split_off returned normally for a range that is out of bounds or not on char boundaries");
+            assert!(false, "C09: FixedBumpString::split_off returned normally for a range that is out of bounds or not on char boundaries");
+        }
+        1 => {
+            let mut bx = s.into_boxed_str();
+            let off = bx.split_off(a..b);
+            mem::forget(off);
+            mem::forget(bx);
+            kani::cover!(true, "C09: BumpBox<str>::split_off returned normally for a range that is out of bounds or not on char boundaries");
+            assert!(false, "C09: BumpBox<str>::split_off returned normally for a range that is out of bounds or not on char boundaries");
+        }
+        _ => {
+            let d = s.drain(a..b);
+            mem::forget(d);
+            kani::cover!(true, "C09: drain returned normally for a range that is out of bounds or not on char boundaries");
+            assert!(false, "C09: drain returned normally for a range that is out of bounds or not on char boundaries");
+        }
+    }
+}
+
+#[kani::proof]
+#[kani::unwind(10)]
+#[kani::stub(core::ptr::copy, crate::stubs::copy_stub)]
+#[kani::stub(core::ptr::copy_nonoverlapping, crate::stubs::copy_stub)]
+#[kani::stub(core::slice::rotate::ptr_rotate, crate::boxed::no_rotate)]
+fn mustfail_str_range() {
+    body_str_range_must_reject::<false>();
+}
+
 macro_rules! two {
     ($($q:ident, $t:ident, $body:ident;)*) => {$(
         #[kani::proof]
